@@ -366,16 +366,27 @@ pub fn vec_contract(seed: u64, count: usize) -> Report {
 // ---------------------------------------------------------------------------
 // C14: lock discipline observed on the real code, plus real threads
 // ---------------------------------------------------------------------------
-pub fn locks(seed: u64, threads_iters: usize) -> Report {
-    let mut rep = Report::new();
-    let (_buf, mut c) = fresh(Version::V3, 1024);
+static LOCK_CUR: std::sync::Mutex<Option<(String, std::time::Instant)>> = std::sync::Mutex::new(None);
+
+fn lock_fixture(v: Version) -> (SharedBuf, CompoundFile<SharedBuf>) {
+    let (buf, mut c) = fresh(v, 1024);
     c.create_storage("/d").unwrap();
     c.create_storage("/d/e").unwrap();
     for n in ["/b", "/a", "/c", "/d/x", "/d/y", "/d/e/z"] {
         let mut s = c.create_stream(n).unwrap();
         s.write_all(&vec![7u8; 5000]).unwrap();
     }
-    let mut calls: Vec<(&str, Box<dyn FnMut(&mut CompoundFile<SharedBuf>)>)> = vec![
+    for n in ["/m1", "/m2"] {
+        let mut s = c.create_stream(n).unwrap();
+        s.write_all(&[9u8; 300]).unwrap();
+    }
+    (buf, c)
+}
+
+type LockCall = (&'static str, Box<dyn FnMut(&mut CompoundFile<SharedBuf>)>);
+
+fn lock_calls() -> Vec<LockCall> {
+    vec![
         ("version", Box::new(|c| { let _ = c.version(); })),
         ("root_entry", Box::new(|c| { let _ = c.root_entry(); })),
         ("entry", Box::new(|c| { let _ = c.entry("/d/x"); })),
@@ -384,14 +395,14 @@ pub fn locks(seed: u64, threads_iters: usize) -> Report {
         ("is_stream", Box::new(|c| { let _ = c.is_stream("/a"); })),
         ("is_storage", Box::new(|c| { let _ = c.is_storage("/d"); })),
         ("read_root_storage", Box::new(|c| { let _ = c.read_root_storage().count(); })),
-        ("read_storage", Box::new(|c| { let _ = c.read_storage("/d").unwrap().count(); })),
+        ("read_storage", Box::new(|c| { let _ = c.read_storage("/d").map(|i| i.count()); })),
         ("walk", Box::new(|c| { let _ = c.walk().count(); })),
-        ("walk_storage", Box::new(|c| { let _ = c.walk_storage("/d").unwrap().count(); })),
-        ("open_stream+read", Box::new(|c| { let mut s = c.open_stream("/a").unwrap(); let mut b = [0u8; 3000]; let _ = s.read(&mut b); let _ = s.read(&mut b); })),
-        ("stream write+flush", Box::new(|c| { let mut s = c.open_stream("/b").unwrap(); let _ = s.write_all(&[1u8; 3000]); let _ = s.flush(); })),
-        ("stream seek+fill_buf", Box::new(|c| { let mut s = c.open_stream("/c").unwrap(); let _ = s.seek(SeekFrom::Start(4000)); let _ = s.fill_buf(); })),
-        ("stream set_len", Box::new(|c| { let mut s = c.open_stream("/c").unwrap(); let _ = s.set_len(100); let _ = s.set_len(6000); })),
-        ("stream drop dirty", Box::new(|c| { let mut s = c.open_stream("/a").unwrap(); let _ = s.write(&[2u8; 10]); })),
+        ("walk_storage", Box::new(|c| { let _ = c.walk_storage("/d").map(|i| i.count()); })),
+        ("open_stream+read", Box::new(|c| { let Ok(mut s) = c.open_stream("/a") else { return }; let mut b = [0u8; 3000]; let _ = s.read(&mut b); let _ = s.read(&mut b); })),
+        ("stream write+flush", Box::new(|c| { let Ok(mut s) = c.open_stream("/b") else { return }; let _ = s.write_all(&[1u8; 3000]); let _ = s.flush(); })),
+        ("stream seek+fill_buf", Box::new(|c| { let Ok(mut s) = c.open_stream("/c") else { return }; let _ = s.seek(SeekFrom::Start(4000)); let _ = s.fill_buf(); })),
+        ("stream set_len", Box::new(|c| { let Ok(mut s) = c.open_stream("/c") else { return }; let _ = s.set_len(100); let _ = s.set_len(6000); })),
+        ("stream drop dirty", Box::new(|c| { let Ok(mut s) = c.open_stream("/a") else { return }; let _ = s.write(&[2u8; 10]); })),
         ("create_storage", Box::new(|c| { let _ = c.create_storage("/n1"); })),
         ("create_storage_all", Box::new(|c| { let _ = c.create_storage_all("/n2/n3"); })),
         ("create_stream", Box::new(|c| { let _ = c.create_stream("/n4"); })),
@@ -403,49 +414,202 @@ pub fn locks(seed: u64, threads_iters: usize) -> Report {
         ("remove_storage", Box::new(|c| { let _ = c.remove_storage("/n1"); })),
         ("remove_storage_all", Box::new(|c| { let _ = c.remove_storage_all("/n2"); })),
         ("flush", Box::new(|c| { let _ = c.flush(); })),
-    ];
-    let mut sites: HashSet<(String, u32)> = HashSet::new();
-    for (name, f) in calls.iter_mut() {
-        cfb::verif::trace_start();
-        f(&mut c);
-        let tr = cfb::verif::trace_take();
-        rep.evaluations += 1;
-        let mut depth: i64 = 0;
-        let mut max_depth = 0;
-        for (_, kind, file, line, d) in tr.iter() {
-            match kind {
-                'q' | 'Q' => {
-                    sites.insert((file.to_string(), *line));
-                    if *d > 0 {
-                        rep.fail(format!(
-                            "locks: {} requests the lock at {}:{} while already holding {} guard(s) (nested section: can deadlock with a queued writer)",
-                            name, file, line, d
-                        ));
-                    }
+        // mini-stream paths
+        ("small stream write+flush", Box::new(|c| { let Ok(mut s) = c.open_stream("/m1") else { return }; let _ = s.seek(SeekFrom::End(0)); let _ = s.write_all(&[1u8; 500]); let _ = s.flush(); })),
+        ("small stream set_len", Box::new(|c| { let Ok(mut s) = c.open_stream("/m2") else { return }; let _ = s.set_len(20); let _ = s.set_len(3000); let _ = s.set_len(5000); let _ = s.set_len(10); })),
+        ("remove small stream", Box::new(|c| { let _ = c.remove_stream("/m1"); })),
+        // REFUSED calls: every error path must release what it took and must not ask again while holding
+        ("set_len beyond the format maximum", Box::new(|c| { let Ok(mut s) = c.open_stream("/c") else { return }; let _ = s.set_len(u64::MAX); let _ = s.set_len(1 << 45); let mut b = [0u8; 10]; let _ = s.read(&mut b); })),
+        ("small set_len beyond the format maximum", Box::new(|c| { let Ok(mut s) = c.open_stream("/m2") else { return }; let _ = s.set_len(u64::MAX - 5); let _ = s.write(&[1]); let _ = s.flush(); })),
+        ("stale handle: read/write/seek/flush/set_len/len after remove_stream", Box::new(|c| {
+            let Ok(mut s) = c.create_stream("/st1") else { return };
+            let _ = s.write_all(&[4u8; 5000]);
+            let _ = s.flush();
+            let _ = c.remove_stream("/st1");
+            let mut b = [0u8; 100];
+            let _ = s.seek(SeekFrom::Start(0));
+            let _ = s.read(&mut b);
+            let _ = s.write(&[1u8; 2000]);
+            let _ = s.flush();
+            let _ = s.set_len(10);
+            let _ = s.set_len(9000);
+            let _ = s.len();
+            let _ = s.seek(SeekFrom::End(-1));
+            let _ = s.fill_buf();
+        })),
+        ("stale handle: slot reused by a storage", Box::new(|c| {
+            let Ok(mut s) = c.create_stream("/st2") else { return };
+            let _ = s.write_all(&[4u8; 100]);
+            let _ = s.flush();
+            let _ = c.remove_stream("/st2");
+            let _ = c.create_storage("/st2dir");
+            let mut b = [0u8; 100];
+            let _ = s.seek(SeekFrom::Start(0));
+            let _ = s.read(&mut b);
+            let _ = s.write(&[1u8; 20]);
+            let _ = s.flush();
+            let _ = s.set_len(5000);
+            let _ = c.remove_storage("/st2dir");
+        })),
+        ("stale handle dropped dirty", Box::new(|c| {
+            let Ok(mut s) = c.create_stream("/st3") else { return };
+            let _ = s.write_all(&[4u8; 100]);
+            let _ = c.remove_stream("/st3");
+            let _ = s.write(&[5u8; 50]);
+        })),
+        ("seek before start / read at end", Box::new(|c| { let Ok(mut s) = c.open_stream("/a") else { return }; let _ = s.seek(SeekFrom::Current(-5)); let _ = s.seek(SeekFrom::End(10)); let _ = s.seek(SeekFrom::End(0)); let mut b = [0u8; 8]; let _ = s.read(&mut b); })),
+        ("open_stream refused", Box::new(|c| { let _ = c.open_stream("/nope").map(|_| ()); let _ = c.open_stream("/d").map(|_| ()); let _ = c.open_stream("/a/b").map(|_| ()); let _ = c.open_stream("/").map(|_| ()); })),
+        ("create refused", Box::new(|c| {
+            let _ = c.create_storage("/d");
+            let _ = c.create_storage("/a");
+            let _ = c.create_storage("/nope/x");
+            let _ = c.create_storage("/a/x");
+            let _ = c.create_storage("/bad:name");
+            let _ = c.create_storage("/");
+            let _ = c.create_new_stream("/a").map(|_| ());
+            let _ = c.create_new_stream("/d").map(|_| ());
+            let _ = c.create_stream("/d").map(|_| ());
+            let _ = c.create_stream("/nope/x").map(|_| ());
+            let _ = c.create_stream("/a/x").map(|_| ());
+            let _ = c.create_stream("/0123456789012345678901234567890123456789").map(|_| ());
+            let _ = c.create_storage_all("/a/x/y");
+            let _ = c.create_storage_all("/d/e/bad!/q");
+        })),
+        ("remove refused", Box::new(|c| {
+            let _ = c.remove_stream("/nope");
+            let _ = c.remove_stream("/d");
+            let _ = c.remove_stream("/");
+            let _ = c.remove_storage("/nope");
+            let _ = c.remove_storage("/a");
+            let _ = c.remove_storage("/d");
+            let _ = c.remove_storage("/");
+            let _ = c.remove_storage_all("/nope");
+            let _ = c.remove_storage_all("/a");
+        })),
+        ("queries and setters refused", Box::new(|c| {
+            let _ = c.read_storage("/a").map(|i| i.count());
+            let _ = c.read_storage("/nope").map(|i| i.count());
+            let _ = c.walk_storage("/a").map(|i| i.count());
+            let _ = c.walk_storage("/nope").map(|i| i.count());
+            let _ = c.entry("/a/../..");
+            let _ = c.set_state_bits("/nope", 1);
+            let _ = c.set_storage_clsid("/a", uuid::Uuid::from_u128(3));
+            let _ = c.set_storage_clsid("/nope", uuid::Uuid::from_u128(3));
+            let _ = c.set_created_time("/nope", web_time::SystemTime::now());
+            let _ = c.set_modified_time("/a", web_time::SystemTime::now());
+            let _ = c.touch("/nope");
+            let _ = c.touch("/a");
+        })),
+        ("remove_storage_all with content", Box::new(|c| { let _ = c.remove_storage_all("/d"); })),
+    ]
+}
+
+/// Runs one call with lock events recorded and checks the discipline: no request
+/// while a guard is held, balanced, nothing held on return (in EVERY outcome).
+fn lock_observe(label: &str, f: &mut dyn FnMut(&mut CompoundFile<SharedBuf>), c: &mut CompoundFile<SharedBuf>,
+                rep: &mut Report, sites: &mut HashSet<(String, u32)>) -> usize {
+    *LOCK_CUR.lock().unwrap() = Some((label.to_string(), std::time::Instant::now()));
+    cfb::verif::trace_start();
+    let r = std::panic::catch_unwind(std::panic::AssertUnwindSafe(|| f(c)));
+    let tr = cfb::verif::trace_take();
+    *LOCK_CUR.lock().unwrap() = None;
+    if r.is_err() {
+        rep.fail(format!("locks: {} panicked", label));
+    }
+    rep.evaluations += 1;
+    let mut depth: i64 = 0;
+    for (_, kind, file, line, d) in tr.iter() {
+        match kind {
+            'q' | 'Q' => {
+                sites.insert((file.to_string(), *line));
+                if *d > 0 {
+                    rep.fail(format!(
+                        "locks: {} requests the lock at {}:{} while already holding {} guard(s) (nested section: can deadlock with a queued writer)",
+                        label, file, line, d
+                    ));
                 }
-                'R' | 'W' => {
-                    depth += 1;
-                    max_depth = max_depth.max(depth);
-                }
-                'r' | 'w' => depth -= 1,
-                _ => {}
             }
-            if depth < 0 {
-                rep.fail(format!("locks: {} releases more than it acquired", name));
-            }
+            'R' | 'W' => depth += 1,
+            'r' | 'w' => depth -= 1,
+            _ => {}
         }
-        if depth != 0 {
-            rep.fail(format!("locks: {} returns while holding {} guard(s)", name, depth));
-        }
-        rep.distinct.insert(format!("{}:{}", name, tr.len()));
-        if rep.samples.len() < 3 {
-            rep.samples.push(format!(
-                "{}: {}",
-                name,
-                tr.iter().map(|(_, k, _, l, d)| format!("{}@{}d{}", k, l, d)).collect::<Vec<_>>().join(" ")
-            ));
+        if depth < 0 {
+            rep.fail(format!("locks: {} releases more than it acquired", label));
         }
     }
+    if depth != 0 && r.is_ok() {
+        rep.fail(format!("locks: {} returns while holding {} guard(s)", label, depth));
+    }
+    rep.distinct.insert(format!("{}:{}", label, tr.len()));
+    if rep.samples.len() < 3 {
+        rep.samples.push(format!(
+            "{}: {}",
+            label,
+            tr.iter().map(|(_, k, _, l, d)| format!("{}@{}d{}", k, l, d)).collect::<Vec<_>>().join(" ")
+        ));
+    }
+    tr.len()
+}
+
+pub fn locks(seed: u64, threads_iters: usize) -> Report {
+    let mut rep = Report::new();
+    // a call that never returns (a thread waiting for a lock it holds itself) is reported
+    // with the call and the lock events recorded so far
+    std::thread::spawn(|| loop {
+        std::thread::sleep(std::time::Duration::from_millis(200));
+        let cur = LOCK_CUR.lock().unwrap().clone();
+        if let Some((label, since)) = cur {
+            if since.elapsed().as_secs() >= 10 {
+                let tr = cfb::verif::trace_take();
+                let tail: Vec<String> = tr.iter().rev().take(6).rev()
+                    .map(|(_, k, f, l, d)| format!("{}@{}:{} holding {}", k, f.rsplit('/').next().unwrap_or(f), l, d)).collect();
+                let msg = format!("locks: the call [{}] did not return within 10 s on a single thread (it waits for a lock it holds itself); last lock events: {}", label, tail.join(", "));
+                println!("{{\"evaluations\": 1, \"distinct\": 1, \"failures\": [{:?}], \"samples\": [], \"notes\": {{}}}}", msg);
+                std::process::exit(0);
+            }
+        }
+    });
+    let mut sites: HashSet<(String, u32)> = HashSet::new();
+    for v in [Version::V3, Version::V4] {
+        let (_buf, mut c) = lock_fixture(v);
+        for (name, f) in lock_calls().iter_mut() {
+            lock_observe(&format!("{:?} {}", v, name), f.as_mut(), &mut c, &mut rep, &mut sites);
+        }
+    }
+    // the same calls with one injected I/O fault at every raw call position: the error
+    // paths below the API (a failed read / write / seek in the middle of a section)
+    let ncalls = lock_calls().len();
+    let mut faulted = 0u64;
+    for idx in 0..ncalls {
+        let mut k = 0u64;
+        loop {
+            let (buf, mut c) = lock_fixture(Version::V3);
+            let mut calls = lock_calls();
+            let (name, f) = &mut calls[idx];
+            {
+                let mut ctl = buf.ctl.lock().unwrap();
+                ctl.fail_kinds = [true, true, true, true];
+                ctl.seq = 0;
+                ctl.fail_at = vec![k];
+                ctl.injected = 0;
+            }
+            lock_observe(&format!("{} with raw call {} failing", name, k), f.as_mut(), &mut c, &mut rep, &mut sites);
+            let injected = buf.ctl.lock().unwrap().injected;
+            {
+                let mut ctl = buf.ctl.lock().unwrap();
+                ctl.fail_kinds = [false; 4];
+                ctl.fail_at.clear();
+            }
+            // the object must still answer afterwards
+            lock_observe(&format!("{} after a fault at raw call {}: walk", name, k), &mut |c| { let _ = c.walk().count(); let _ = c.exists("/a"); }, &mut c, &mut rep, &mut sites);
+            if injected == 0 || k > 400 {
+                break;
+            }
+            faulted += 1;
+            k += 1;
+        }
+    }
+    rep.note("fault_positions", faulted);
     rep.note("lock_sites_observed", sites.len() as u64);
     let mut site_list: Vec<String> = sites.iter().map(|(f, l)| format!("{}:{}", f.rsplit('/').next().unwrap_or(f), l)).collect();
     site_list.sort();
@@ -512,6 +676,10 @@ pub fn locks(seed: u64, threads_iters: usize) -> Report {
                 let _ = ws.write_all(&[k as u8; 300]);
                 let _ = ws.flush();
                 let _ = ws.set_len(2000 + (k % 7) as u64 * 100);
+                if k % 5 == 4 {
+                    let _ = ws.set_len(u64::MAX - k as u64);
+                    let _ = ws.seek(SeekFrom::Current(-100_000));
+                }
                 let mut b = [0u8; 100];
                 let _ = ws.read(&mut b);
                 progress.fetch_add(1, Ordering::Relaxed);
@@ -1769,7 +1937,147 @@ pub fn deviations(seed: u64, count: usize) -> Report {
             }
         }
     }
+    if count > 0 {
+        deviations_difat(seed, &mut rep);
+    }
     rep
+}
+
+/// C16 on files that HAVE DIFAT sectors (more than 109 FAT sectors: a version 3 file above
+/// 7 MB).  The small files of `deviations` never reach the DIFAT-sector branches of open; here
+/// small streams and storages are written AFTER a large stream, so that they live in the part of
+/// the file described by the LAST FAT sectors (those listed in DIFAT sectors).
+pub fn deviations_difat(seed: u64, rep: &mut Report) {
+    let mut rng = Rng::new(seed ^ 0xD1FA7);
+    let extra_fat = *rng.pick(&[1usize, 2, 8, 20, 128]);
+    let big = (109 + extra_fat - 1) * 128 * 512 + 512 * (1 + rng.below(60) as usize);
+    let (buf, mut c) = fresh(Version::V3, 1 << 20);
+    {
+        let mut s = c.create_stream("/big").unwrap();
+        let chunk: Vec<u8> = (0..65536usize).map(|j| (j * 7 + 3) as u8 | 1).collect();
+        let mut left = big;
+        while left > 0 {
+            let n = left.min(chunk.len());
+            s.write_all(&chunk[..n]).unwrap();
+            left -= n;
+        }
+    }
+    c.create_storage("/late").unwrap();
+    c.set_storage_clsid("/late", uuid::Uuid::from_u128(0x77)).unwrap();
+    for (k, n) in [100usize, 3000, 5000, 9000].iter().enumerate() {
+        let mut s = c.create_stream(format!("/late/t{}", k)).unwrap();
+        s.write_all(&(0..*n).map(|j| (j * 5 + k) as u8 | 1).collect::<Vec<u8>>()).unwrap();
+    }
+    drop(c);
+    let clean = buf.snapshot();
+    let want = match full_dump(&clean, true) {
+        Ok(d) => d,
+        Err(e) => {
+            rep.fail(format!("deviations-difat seed={}: strict open rejects a {}-byte file the library wrote: {}", seed, clean.len(), e));
+            return;
+        }
+    };
+    let sl = 512usize;
+    // the DIFAT chain and the full list of FAT sectors
+    let mut difat_secs: Vec<u32> = Vec::new();
+    let mut fat_secs: Vec<u32> = (0..109).map(|i| rd32(&clean, 76 + 4 * i)).filter(|&v| v != 0xFFFF_FFFF).collect();
+    let mut cur = rd32(&clean, 68);
+    while cur < 0xFFFF_FFFA && difat_secs.len() < 1000 {
+        difat_secs.push(cur);
+        let off = (cur as usize + 1) * sl;
+        for i in 0..127 {
+            let v = rd32(&clean, off + 4 * i);
+            if v != 0xFFFF_FFFF {
+                fat_secs.push(v);
+            }
+        }
+        cur = rd32(&clean, off + 508);
+    }
+    if difat_secs.is_empty() {
+        rep.fail(format!("deviations-difat seed={}: the base file has no DIFAT sector ({} FAT sectors)", seed, fat_secs.len()));
+        return;
+    }
+    let nfat = fat_secs.len() as u32;
+    let ndifat = difat_secs.len() as u32;
+    let fat_cell = |i: usize| (fat_secs[i / 128] as usize + 1) * sl + 4 * (i % 128);
+    let last_difat_off = (*difat_secs.last().unwrap() as usize + 1) * sl;
+    let mut plans: Vec<(String, Box<dyn Fn(&mut Vec<u8>)>, bool)> = Vec::new();
+    for nv in [nfat + 1, nfat + 5, nfat - 1, nfat - 3, 109, 1, 0] {
+        plans.push((format!("FAT sector count in the header {} instead of {}", nv, nfat), Box::new(move |b| wr32(b, 44, nv)), true));
+    }
+    for nv in [0u32, ndifat + 1, ndifat + 7] {
+        plans.push((format!("DIFAT sector count in the header {} instead of {}", nv, ndifat), Box::new(move |b| wr32(b, 72, nv)), true));
+    }
+    plans.push(("zero-padded last DIFAT sector".to_string(), Box::new(move |b| {
+        for i in 0..127 {
+            if rd32(b, last_difat_off + 4 * i) == 0xFFFF_FFFF {
+                wr32(b, last_difat_off + 4 * i, 0);
+            }
+        }
+    }), true));
+    plans.push(("DIFAT chain ended by FREE_SECTOR".to_string(), Box::new(move |b| wr32(b, last_difat_off + 508, 0xFFFF_FFFF)), false));
+    for (k, &d) in difat_secs.iter().enumerate().take(2) {
+        let off = fat_cell(d as usize);
+        for mark in [0xFFFF_FFFEu32, 0xFFFF_FFFF] {
+            plans.push((format!("DIFAT sector #{} marked {:#x} in the FAT", k, mark), Box::new(move |b| wr32(b, off, mark)), true));
+        }
+    }
+    {
+        let f = *fat_secs.last().unwrap() as usize;
+        let off = fat_cell(f);
+        plans.push(("last FAT sector (listed in a DIFAT sector) not marked in the FAT".to_string(), Box::new(move |b| wr32(b, off, 0xFFFF_FFFE)), true));
+    }
+    {
+        let nsect = clean.len() / sl - 1;
+        let total = fat_secs.len() * 128;
+        let offs: Vec<usize> = (nsect..total).map(fat_cell).collect();
+        if !offs.is_empty() {
+            plans.push(("zero-padded FAT".to_string(), Box::new(move |b| { for &o in offs.iter() { wr32(b, o, 0); } }), true));
+        }
+    }
+    // singly, then all header-count deviations combined with the padding
+    let n = plans.len();
+    let mut runs: Vec<Vec<usize>> = (0..n).map(|k| vec![k]).collect();
+    runs.push(vec![2, 8, 10]);
+    for plan in runs {
+        let mut img = clean.clone();
+        let mut names = Vec::new();
+        let mut strict_must_reject = false;
+        for &k in plan.iter() {
+            (plans[k].1)(&mut img);
+            names.push(plans[k].0.clone());
+            strict_must_reject |= plans[k].2;
+        }
+        if img == clean {
+            continue;
+        }
+        rep.evaluations += 1;
+        rep.distinct.insert(format!("difat-{}-{:?}", nfat, names));
+        match full_dump(&img, false) {
+            Ok(got) => {
+                if got != want {
+                    let d = got.iter().zip(want.iter()).position(|(x, y)| x != y);
+                    rep.fail(format!("deviations-difat seed={} [V3 file of {} bytes, {} FAT sectors, {} DIFAT sectors; {}]: permissive open exposes different content (entry {:?}: {:?} vs {:?}; {} vs {} entries)", seed, clean.len(), nfat, ndifat, names.join(" + "), d, d.map(|k| got[k].clone()), d.map(|k| want[k].clone()), got.len(), want.len()));
+                }
+            }
+            Err(e) => rep.fail(format!("deviations-difat seed={} [V3 file of {} bytes, {} FAT sectors, {} DIFAT sectors; {}]: permissive open/read fails: {}", seed, clean.len(), nfat, ndifat, names.join(" + "), e)),
+        }
+        match full_dump(&img, true) {
+            Ok(got) => {
+                if strict_must_reject {
+                    rep.fail(format!("deviations-difat seed={} [{} FAT sectors; {}]: strict open accepts the deviation", seed, nfat, names.join(" + ")));
+                } else if got != want {
+                    rep.fail(format!("deviations-difat seed={} [{} FAT sectors; {}]: strict open exposes different content", seed, nfat, names.join(" + ")));
+                }
+            }
+            Err(e) => {
+                if e == "PANIC" {
+                    rep.fail(format!("deviations-difat seed={} [{} FAT sectors; {}]: strict open panicked", seed, nfat, names.join(" + ")));
+                }
+            }
+        }
+    }
+    rep.note("difat_base_fat_sectors", nfat as u64);
 }
 
 pub fn cycle_debug() {
